@@ -264,7 +264,7 @@ class Tokenizer(object):
         the LISP rules.
         This is the method doing the heavy-lifting of tokenization.
         """
-        spaces = {" ", "\n", "\t"}
+        spaces = {" ", "\n", "\t", "\r"}
         separators = {"(", ")", "|", "\""}
         specials = spaces | separators | {";", ""}
 
@@ -325,7 +325,8 @@ class Tokenizer(object):
                             c = next(reader)
 
                     elif c == ";":
-                        while c and c != "\n":
+                        # A comment ends at a line-break character
+                        while c and c != "\n" and c != "\r":
                             c = next(reader)
                         c = next(reader)
 
